@@ -3,6 +3,7 @@
 from __future__ import annotations
 
 import logging
+import os
 import queue
 import signal
 import tempfile
@@ -997,6 +998,8 @@ class MarkovChainMonteCarloMethod:
         elif progress_bar_class is None:
             progress_bar_class = SequenceProgressBar
             sampling_stage_bar_class = LabelledSequenceProgressBar
+        if n_process is None:
+            n_process = os.cpu_count()
         n_chain = len(init_states)
         n_trace_iter = n_warm_up_iter + n_main_iter if trace_warm_up else n_main_iter
         init_states = [
